@@ -27,3 +27,10 @@ Definition ticks_row_ok (minp maxp : Z) (L : list Z) (nlo : Z) (c : Z * list (op
 
 Definition validate_ok (c : vexch * vclient * vside * vtype * bool) : bool :=
   let '(x, cl, sd, t, e) := c in Bool.eqb (validate PRICES BETDAQ_PRICES x cl sd t) e.
+
+(* the same number on both ladders: (k, classic, betdaq, classic again, betdaq again) *)
+Definition mixed_ok (c : Z * Z * Z * Z * Z) : bool :=
+  let '(k, a, b, a2, b2) := c in
+  let ma := nearest MIN_PRICE MAX_PRICE CUTOFFS k 1000 in
+  let mb := nearest BETDAQ_MIN_PRICE BETDAQ_MAX_PRICE BETDAQ_CUTOFFS k 1000 in
+  (ma =? a) && (ma =? a2) && (mb =? b) && (mb =? b2).
